@@ -1157,21 +1157,22 @@ Result execIntegralRange(const std::string& op, long f, long t, const std::vecto
   using CV = IRConv<T, HIGH>;
   Result res;
   std::string err;
+  const __int128 ext = (__int128)t - (__int128)f;  // number of elements (the bounds may span the whole type)
   Dune::IntegralRange<T> r(CV::to(f), CV::to(t));
   stat("op_rg_" + op);
   if (f == t) stat("range_empty");
   auto enumerate = [&](auto&& range, Vals& out) {
     for (auto v : range) {
       out.push_back(CV::from((T)v));
-      if ((long)out.size() > t - f) { note(err, "range yields more than to-from values"); break; }
+      if ((__int128)out.size() > ext) { note(err, "range yields more than to-from values"); break; }
     }
   };
   Vals expect;
-  if (t - f <= 4096) for (long v = f; v < t; ++v) expect.push_back(v);
+  if (ext <= 4096) for (long v = f; v < t; ++v) expect.push_back(v);
   if (op == "size") {
     auto s = r.size();
     res.impl = std::to_string((unsigned long)s);
-    if ((unsigned long)s != (unsigned long)(t - f)) note(err, "size() is " + res.impl + ", expected " + std::to_string(t - f));
+    if ((unsigned long)s != (unsigned long)ext) note(err, "size() is " + res.impl + ", expected " + std::to_string((unsigned long)ext));
   } else if (op == "empty") {
     res.impl = r.empty() ? "true" : "false";
     if (r.empty() != (f == t)) note(err, "empty() is " + res.impl);
@@ -1183,22 +1184,22 @@ Result execIntegralRange(const std::string& op, long f, long t, const std::vecto
     if (got != (f <= x && x < t)) note(err, "contains(" + std::to_string(x) + ") is " + res.impl);
   } else if (op == "at") {
     long i = arg.at(0);
-    if (i < 0 || i >= t - f) return badOp();
+    if (i < 0 || (__int128)i >= ext) return badOp();
     long got = CV::from(r[(T)i]);
     res.impl = std::to_string(got);
     if (got != f + i) note(err, "range[i] is " + res.impl);
   } else if (op == "enum") {
-    if (t - f > 4096) return badOp();
+    if (ext > 4096) return badOp();
     Vals out;
     enumerate(r, out);
     if (out != expect) note(err, "range enumerates " + listStr(out) + ", expected " + listStr(expect));
     // what the standard library makes of the iterators (std::distance and the iterator-pair constructor use operator-)
-    if (std::distance(r.begin(), r.end()) != (std::ptrdiff_t)(t - f)) note(err, "std::distance(begin(), end()) is not to-from");
+    if (std::distance(r.begin(), r.end()) != (std::ptrdiff_t)ext) note(err, "std::distance(begin(), end()) is not to-from");
     std::vector<T> copy(r.begin(), r.end());
     if (copy.size() != expect.size()) note(err, "std::vector(begin(), end()) has " + std::to_string(copy.size()) + " entries");
     res.impl = listStr(out);
   } else if (op == "enum_to") {  // Dune::range(to), IntegralRange<T>(to): the range starts at 0
-    if (HIGH || f != 0 || t - f > 4096) return badOp();
+    if (HIGH || f != 0 || ext > 4096) return badOp();
     Vals o1, o2;
     enumerate(Dune::range((T)t), o1);
     enumerate(Dune::IntegralRange<T>((T)t), o2);
@@ -1206,13 +1207,145 @@ Result execIntegralRange(const std::string& op, long f, long t, const std::vecto
     if (o2 != o1) note(err, "IntegralRange(to) enumerates " + listStr(o2));
     res.impl = listStr(o1);
   } else if (op == "enum_pair") {  // IntegralRange<T>(std::pair(from, to)), Dune::range(from, to)
-    if (HIGH || t - f > 4096) return badOp();
+    if (HIGH || ext > 4096) return badOp();
     Vals o1, o2;
     enumerate(Dune::IntegralRange<T>(std::pair<T, T>((T)f, (T)t)), o1);
     enumerate(Dune::range((T)f, (T)t), o2);
     if (o1 != expect) note(err, "IntegralRange(pair) enumerates " + listStr(o1) + ", expected " + listStr(expect));
     if (o2 != o1) note(err, "range(from, to) enumerates " + listStr(o2));
     res.impl = listStr(o1);
+  } else if (op == "itcmp" || op == "tcmp" || op == "itadv" || op == "tadv") {
+    // two positions of a range of ANY extent (up to the whole type), given by their values x and y; the oracle
+    // works in 128 bit integers.  The difference of two iterators is judged against the true difference when the
+    // signed difference type can hold it, otherwise against that value reduced modulo 2^bits (what the type
+    // holds); the comparisons against the order of the positions, whatever their distance.
+    using D = std::make_signed_t<T>;
+    static_assert(std::is_same_v<D, typename std::iterator_traits<typename Dune::IntegralRange<T>::iterator>::difference_type>);
+    using I128 = __int128;
+    const int bits = 8 * (int)sizeof(T);
+    const I128 DMAX = (I128)std::numeric_limits<D>::max(), DMIN = (I128)std::numeric_limits<D>::min();
+    long x = arg.at(0), y = arg.at(1);
+    auto inside = [&](I128 v) { return v >= (I128)f && v <= (I128)t; };
+    if (!inside(x)) return badOp();
+    // the iterator at value v: begin() moved there in steps of at most max(difference_type), alternating += and +
+    auto itAt = [&](long v) {
+      auto it = r.begin();
+      I128 rem = (I128)v - (I128)f;
+      bool alt = false;
+      while (rem > 0) {
+        D sgo = (D)std::min(rem, DMAX);
+        if (alt) it = it + sgo; else it += sgo;
+        alt = !alt;
+        rem -= (I128)sgo;
+      }
+      if (CV::from((T)*it) != v) note(err, "begin() advanced to the value " + std::to_string(v) + " yields " + std::to_string(CV::from((T)*it)));
+      if (!(it == Dune::IntegralRange<T>(CV::to(v), CV::to(t)).begin()) || it != Dune::IntegralRange<T>(CV::to(f), CV::to(v)).end())
+        note(err, "begin() advanced to the value " + std::to_string(v) + " differs from the end() of the range [from, value)");
+      return it;
+    };
+    auto wrapD = [&](I128 d) {  // d modulo 2^bits, read as signed
+      unsigned __int128 m = (unsigned __int128)d;
+      if (bits < 128) m &= (((unsigned __int128)1) << bits) - 1;
+      I128 sv = (I128)m;
+      if (sv > DMAX) sv -= ((I128)1) << bits;
+      return (long)sv;
+    };
+    auto b2 = [](bool v) { return std::string(v ? "true" : "false"); };
+    if (op == "tadv") {
+      // the same moves on an iterator of a transformed range over the integral range (IteratorFacade: +=, -=, +, -,
+      // n+it, [] forwarded to / derived from the IntegralRangeIterator), with the identity as the function
+      const long n = y;
+      I128 tgt = (I128)x + (I128)n;
+      if (!inside(tgt) || (I128)n < DMIN || (I128)n > DMAX || -(I128)n < DMIN || -(I128)n > DMAX) return badOp();
+      auto idf = [](T v) { return v; };
+      auto view = Dune::transformedRangeView(n >= 0 ? Dune::IntegralRange<T>(CV::to(x), CV::to(t)) : Dune::IntegralRange<T>(CV::to(f), CV::to(x)), idf);
+      auto it = (n >= 0) ? view.begin() : view.end();
+      const D dn = (D)n, mn = (D)(-n);
+      Vals got;
+      got.push_back(CV::from((T)*(it + dn)));
+      got.push_back(CV::from((T)*(dn + it)));
+      { auto c = it; auto& rr = (c += dn); if (&rr != &c) note(err, "it += n does not return *this"); got.push_back(CV::from((T)*c)); }
+      got.push_back(CV::from((T)it[dn]));
+      got.push_back(CV::from((T)*(it - mn)));
+      { auto c = it; auto& rr = (c -= mn); if (&rr != &c) note(err, "it -= n does not return *this"); got.push_back(CV::from((T)*c)); }
+      static const char* nm[] = {"it + n", "n + it", "it += n", "it[n]", "it - (-n)", "it -= (-n)"};
+      for (int i = 0; i < 6; ++i)
+        if ((I128)got[i] != tgt) note(err, std::string("transformed range: ") + nm[i] + " from the value " + std::to_string(x) + " with n = " + std::to_string(n) + " yields " + std::to_string(got[i]));
+      if (n >= -64 && n <= 64) {
+        auto c = it;
+        for (long i = 0; i < (n < 0 ? -n : n); ++i) { if (n > 0) ++c; else --c; }
+        if (!(c == it + dn)) note(err, "transformed range: it + n differs from n single steps");
+      }
+      if ((it + dn) - it != dn) note(err, "transformed range: (it + n) - it is not n");
+      res.impl = listStr(got);
+      stat(n == 0 ? "wide_tadv_zero" : (n == (long)DMAX || -(I128)n == DMAX) ? "wide_tadv_extreme" : "wide_tadv_other");
+    } else if (op == "itadv") {
+      const long n = y;
+      I128 tgt = (I128)x + (I128)n;
+      if (!inside(tgt) || (I128)n < DMIN || (I128)n > DMAX || -(I128)n < DMIN || -(I128)n > DMAX) return badOp();
+      auto it = itAt(x);
+      const D dn = (D)n, mn = (D)(-n);
+      Vals got;
+      got.push_back(CV::from((T)*(it + dn)));
+      got.push_back(CV::from((T)*(dn + it)));
+      { auto c = it; auto& rr = (c += dn); if (&rr != &c) note(err, "it += n does not return *this"); got.push_back(CV::from((T)*c)); }
+      got.push_back(CV::from((T)it[dn]));
+      got.push_back(CV::from((T)*(it - mn)));
+      { auto c = it; auto& rr = (c -= mn); if (&rr != &c) note(err, "it -= n does not return *this"); got.push_back(CV::from((T)*c)); }
+      static const char* nm[] = {"it + n", "n + it", "it += n", "it[n]", "it - (-n)", "it -= (-n)"};
+      for (int i = 0; i < 6; ++i)
+        if ((I128)got[i] != tgt) note(err, std::string(nm[i]) + " from the value " + std::to_string(x) + " with n = " + std::to_string(n) + " yields " + std::to_string(got[i]));
+      // n single steps arrive at the same iterator (bounded number of steps)
+      if (n >= -64 && n <= 64) {
+        auto c = it;
+        for (long i = 0; i < (n < 0 ? -n : n); ++i) { if (n > 0) ++c; else --c; }
+        if (!(c == it + dn)) note(err, "it + n differs from n single steps");
+      }
+      if ((it + dn) - it != dn) note(err, "(it + n) - it is not n");
+      res.impl = listStr(got);
+      stat(n == 0 ? "wide_adv_zero" : (n == (long)DMAX || -(I128)n == DMAX) ? "wide_adv_extreme" : "wide_adv_other");
+    } else {
+      if (!inside(y)) return badOp();
+      const I128 d = (I128)x - (I128)y;
+      const bool repr = d >= DMIN && d <= DMAX;
+      bool lt, le, gt, ge, eq, ne;
+      long dd;
+      if (op == "itcmp") {
+        auto X = itAt(x), Y = itAt(y);
+        lt = X < Y; le = X <= Y; gt = X > Y; ge = X >= Y; eq = X == Y; ne = X != Y;
+        dd = (long)(X - Y);
+      } else {
+        // iterators of a transformed range (IteratorFacade over the IntegralRangeIterator): begin()/end() of the view
+        // over the sub-range between the two values
+        const long lo = std::min(x, y), hi = std::max(x, y);
+        std::vector<long> log;
+        auto view = Dune::transformedRangeView(Dune::IntegralRange<T>(CV::to(lo), CV::to(hi)), LogF{&log});
+        auto Bg = view.begin(), En = view.end();
+        const auto& X = (x <= y) ? Bg : En;
+        const auto& Y = (x <= y) ? En : Bg;
+        lt = X < Y; le = X <= Y; gt = X > Y; ge = X >= Y; eq = X == Y; ne = X != Y;
+        dd = (long)(X - Y);
+        if (!log.empty()) note(err, "comparing iterators of the transformed range called the function");
+      }
+      res.impl = b2(lt) + " " + b2(le) + " " + b2(gt) + " " + b2(ge) + " " + b2(eq) + " " + b2(ne) + " " + std::to_string(dd);
+      const std::string where = "iterators at the values " + std::to_string(x) + " and " + std::to_string(y) + " of the range [" +
+                                std::to_string(f) + "," + std::to_string(t) + ")";
+      if (eq != (d == 0) || ne != (d != 0)) note(err, "== / != of the " + where + " gave " + b2(eq) + " / " + b2(ne));
+      // the IteratorFacade documents it1 < it2 as (it1 - it2) < 0: for a transformed range the order is judged only
+      // where difference_type can hold the distance (see design_notes/C16.md, round four, finding F1)
+      const bool judgeOrder = (op == "itcmp") || repr;
+      if (judgeOrder) {
+        if (lt != (d < 0)) note(err, "operator< of the " + where + " gave " + b2(lt));
+        if (le != (d <= 0)) note(err, "operator<= of the " + where + " gave " + b2(le));
+        if (gt != (d > 0)) note(err, "operator> of the " + where + " gave " + b2(gt));
+        if (ge != (d >= 0)) note(err, "operator>= of the " + where + " gave " + b2(ge));
+      } else stat("wide_tcmp_order_not_judged_distance_exceeds_difference_type");
+      // in every case: a strict order on the pair
+      if (op == "itcmp" && ((lt && gt) || (lt && eq) || (gt && eq) || !(lt || gt || eq) || le == gt || ge == lt))
+        note(err, "the comparisons of the " + where + " do not form a strict order");
+      if (repr ? (I128)dd != d : dd != wrapD(d)) note(err, "difference of the " + where + " is " + std::to_string(dd));
+      stat(std::string("wide_") + op + (d == 0 ? "_equal" : repr ? "_representable" : "_beyond_difference_type"));
+    }
   } else return badOp();
   if (!err.empty()) res.oracle = "FAIL " + err;
   return res;
@@ -1844,7 +1977,8 @@ static Result execRange(const std::vector<std::string>& w) {
     arg.push_back(x);
   }
   const std::string& op = w[3];
-  if ((op == "contains" || op == "at" || op == "vat") ? arg.size() != 1 : !arg.empty()) return badOp();
+  if ((op == "contains" || op == "at" || op == "vat") ? arg.size() != 1
+      : (op == "itcmp" || op == "tcmp" || op == "itadv" || op == "tadv") ? arg.size() != 2 : !arg.empty()) return badOp();
   if (kind.rfind("sir_", 0) == 0) {
     long f, t;
     if (!parseFromTo(w[2], f, t)) return badOp();
@@ -2167,6 +2301,60 @@ static std::string genRange(Rng& r) {
     std::vector<const KSpec*> irs;
     for (auto& k : kinds()) if (std::string(k.name).rfind("ir_", 0) == 0) irs.push_back(&k);
     const KSpec& k = *irs[r.below(irs.size())];
+    if (r.coin(1, 2)) {
+      // two positions of a range of any extent of the type: bounds and values biased to the limits of the type,
+      // to each other, and to distances around max(difference_type)
+      const __int128 lo = k.tmin, hi = k.tmax;
+      const __int128 half = (hi - lo) / 2;  // = max(difference_type) (for ir_u64: the reachable half of the type)
+      auto anyv = [&](__int128 a, __int128 b) -> long {  // a value in [a, b]
+        if (a >= b) return (long)a;
+        unsigned __int128 span = (unsigned __int128)(b - a);
+        switch (r.below(6)) {
+          case 0: return (long)a;
+          case 1: return (long)b;
+          case 2: { __int128 c = a + (__int128)r.below(4); return (long)(c <= b ? c : b); }
+          case 3: { __int128 c = b - (__int128)r.below(4); return (long)(c >= a ? c : a); }
+          default: {
+            unsigned __int128 u = ((unsigned __int128)r.below(1ul << 62) << 62) ^ (unsigned __int128)r.below(1ul << 62);
+            return (long)(a + (__int128)(u % (span + 1)));
+          }
+        }
+      };
+      long f = anyv(lo, hi), t = anyv(lo, hi);
+      if (r.coin(1, 2)) { f = (long)lo; t = (long)hi; }
+      if (f > t) std::swap(f, t);
+      long x = anyv(f, t), y;
+      switch (r.below(6)) {
+        case 0: y = x; break;
+        case 1: y = anyv(f, t); break;
+        case 2: y = (x < t) ? x + 1 : x; break;
+        default: {  // a distance around max(difference_type), either side
+          __int128 dist = half + (__int128)r.range(-2, 2);
+          if (r.coin(1, 3)) dist = (__int128)anyv(half + 1 - (1 + half), (hi - lo) - (1 + half)) + (1 + half);  // anywhere beyond max(difference_type)
+          __int128 c = r.coin() ? (__int128)x + dist : (__int128)x - dist;
+          if (c < (__int128)f) c = f;
+          if (c > (__int128)t) c = t;
+          y = (long)c;
+        }
+      }
+      if (r.coin()) std::swap(x, y);
+      std::string op = r.pick(std::vector<std::string>{"itcmp", "itcmp", "itcmp", "tcmp", "tcmp", "itadv", "itadv", "tadv", "size", "contains", "empty"});
+      if (op == "size" || op == "empty") { os << "rg " << k.name << " " << f << ":" << t << " " << op; return os.str(); }
+      if (op == "contains") {
+        long c = r.coin() ? x : anyv(lo, hi);
+        if (std::string(k.name) == "ir_u64h" || std::string(k.name) == "ir_u64") c = x;
+        os << "rg " << k.name << " " << f << ":" << t << " contains " << c;
+        return os.str();
+      }
+      if (op == "itadv" || op == "tadv") {
+        __int128 n = (__int128)y - (__int128)x;  // move from x to y when difference_type can hold n and -n
+        if (n > half || n < -half) n = (n > 0) ? half : -half;
+        if ((__int128)x + n > (__int128)t || (__int128)x + n < (__int128)f) n = 0;
+        y = (long)n;
+      }
+      os << "rg " << k.name << " " << f << ":" << t << " " << op << " " << x << " " << y;
+      return os.str();
+    }
     long n;
     std::string spec = genSpec(r, k, n);
     long f, t;
